@@ -197,8 +197,12 @@ def search(run, info):
             irep = code in c
             if mrep != irep:
                 run.cov["disagreements_checked"] += 1
-                run.violation("correspondence", "rule model reports %s, implementation %s for %r" % (mrep, c, text[:120]),
-                              {"input": {"text": text}}, no_input=True)
+                # the models of these declaration-local rules are PROVED to be the documented conditions (C02_unique_names: the names
+                # are not pairwise distinct; C02_subrange: minimum >= maximum as integers of any magnitude), so the text is a
+                # failing input of the property itself: the code is reported although the documented condition does not hold, or
+                # not reported although it does
+                run.violation("impl-violates-property", "%s is %s for %r although the documented condition %s (rule model, proved to be the documented rule: %s)" % (
+                    code, "reported" if irep else "not reported", text[:120], "does not hold" if irep else "holds", mrep), {"input": {"text": text}, "expect_code": code, "documented_condition_holds": mrep})
     return {"coverage": {
         "rule": "valid-by-construction units (enumerations, structures, subranges, arrays, function blocks with inputs/outputs/"
                 "instances and formal / positional calls, functions, programs, configurations with globals, externals and tasks; "
@@ -228,6 +232,8 @@ def replay(run, rep):
     c = codes_of(r)
     if c is None:
         return 1
+    if "expect_code" in rep:
+        return 0 if (rep["expect_code"] in c) == bool(rep.get("documented_condition_holds")) else 1
     if exp == "accepted":
         return 1 if c else 0
     if exp == "no crash":
